@@ -639,6 +639,19 @@ def traversal_events(ir, g):
     return ev
 
 
+def ownership_conflict(ir, g) -> bool:
+    """A value listed as input / output / initializer by two different graphs of the cloned region: a Graph cannot
+    represent that (a Value belongs to at most one graph - C01), so the region has no clone; it can only arise
+    for a GraphView (whose lists are not checked) over a graph whose nested graph declares an enclosing-scope value
+    as its output."""
+    owner: dict[int, int] = {}
+    for gr in collect(ir, g)[2]:
+        for v in list(gr.inputs) + list(gr.outputs) + list(gr.initializers.values()):
+            if owner.setdefault(id(v), id(gr)) != id(gr):
+                return True
+    return False
+
+
 def unmapped_outputs(ir, g):
     """Declared outputs (of g or a nested graph) that no input/initializer/node output defines before the end
     of their graph in the cloner's traversal: such a graph cannot be cloned (with or without the flag)."""
@@ -1462,7 +1475,7 @@ def oracle(spec: dict, rename: bool = True) -> list[dict]:
     try:
         clone = sc["clone"]()
     except Exception as e:  # noqa: BLE001
-        if not outer and not foreign_out and sorted_py and kind != 3:
+        if not outer and not foreign_out and sorted_py and kind != 3 and not ownership_conflict(ir, cg):
             bad("rejected", f"clone of a closed, sorted graph raised {type(e).__name__}: {str(e)[:120]}")
         now = snapshot(ir, sc["model"], skip_uses_of=outer)
         if now != before or serialize(ir, sc["model"]) != ser_before:
